@@ -10,7 +10,7 @@ Not decided: set arithmetic on concrete values, ASSIGN/DEFINE/UPDATE ordering ov
 import re
 
 from verif import core
-from verif.tree import walk, walk_fn, show, stmt_list, meth, strip
+from verif.tree import plain_num, walk, walk_fn, show, stmt_list, meth, strip
 
 LEVEL = "other"
 PARSER = "opm/input/eclipse/Schedule/UDQ/UDQParser.cpp"
@@ -237,7 +237,7 @@ def run(chk):
     if len(sg) == 1:
         inner = [n for n in stmt_list(sg[0]["then"]) if n["k"] == "If"]
         oks = sorted(tk_tests(sg[0]["cond"])) == [("==", "binary_op_add"), ("==", "binary_op_sub")] and strip(sg[0]["cond"]).get("op") == "||" and len(inner) == 1 and tk_tests(inner[0]["cond"]) == [("==", "binary_op_sub")] \
-            and any(x["k"] == "Bin" and x.get("asg") and show(strip(x["c"][0])) == "sign" and show(strip(x["c"][1])).replace(" ", "") in ("(-1)", "-1") for x in walk(inner[0]["then"])) and bool(calls_in(sg[0]["then"], {"next"}))
+            and any(x["k"] == "Bin" and x.get("asg") and show(strip(x["c"][0])) == "sign" and plain_num(show(strip(x["c"][1]))).replace(" ", "") in ("(-1)", "-1") for x in walk(inner[0]["then"])) and bool(calls_in(sg[0]["then"], {"next"}))
     chk.instance(r_par, "sign", sample=dict(ok=oks))
     if not oks:
         chk.violation(r_par, "sign", "parse_factor: a leading '+' or '-' must be consumed, and exactly the '-' sets the sign to -1", pfac["file"], pfac["l"])
@@ -595,7 +595,7 @@ def run(chk):
             raise core.AnalysisBroken("UDQBinaryFunction::%s not found" % nm_)
         decl = {v["n"]: show(strip(v.get("init") or {})).replace("Opm::", "") for n in stmt_list(f["body"]) if n["k"] == "Decl" for v in n["vars"]}
         lp = full_loop(f, "result")
-        assigns = [show(strip(x["a"][1])).replace("std::", "") for x in walk(f["body"]) if x["k"] == "MCall" and x.get("m") == "assign" and len(x.get("a") or []) == 2]
+        assigns = [plain_num(show(strip(x["a"][1]))).replace("std::", "") for x in walk(f["body"]) if x["k"] == "MCall" and x.get("m") == "assign" and len(x.get("a") or []) == 2]
         guards = [re.sub(r"\.operator \w+\(\)", "", show(strip(n["cond"]))) for n in walk(f["body"]) if n["k"] == "If"]
         ok = lp not in (None, False) and decl.get("result") in ("(lhs - rhs)", "operator-(lhs, rhs)") and "elm" in guards
         if nm_ in ("GT", "LT"):
@@ -619,7 +619,7 @@ def run(chk):
         if f is None:
             raise core.AnalysisBroken("UDQBinaryFunction::%s not found" % nm_)
         decl = {v["n"]: show(strip(v.get("init") or {})) for n in walk(f["body"]) if n["k"] == "Decl" for v in n["vars"]}
-        assigns = [show(strip(x["a"][1])).replace("std::", "") for x in walk(f["body"]) if x["k"] == "MCall" and x.get("m") == "assign" and len(x.get("a") or []) == 2]
+        assigns = [plain_num(show(strip(x["a"][1]))).replace("std::", "") for x in walk(f["body"]) if x["k"] == "MCall" and x.get("m") == "assign" and len(x.get("a") or []) == 2]
         guards = [re.sub(r"\.operator \w+\(\)", "", show(strip(n["cond"]))).replace(" ", "") for n in walk(f["body"]) if n["k"] == "If"]
         alt = comb.replace("rhs_elm.get() + lhs_elm.get()", "lhs_elm.get() + rhs_elm.get()").replace("rhs_elm.get() * lhs_elm.get()", "lhs_elm.get() * rhs_elm.get()").replace("(rhs_elm.get(), lhs_elm.get())", "(lhs_elm.get(), rhs_elm.get())")
         ok = "udq_union(lhs, rhs)" in (decl.get("result") or "") and assigns in ([comb], [alt]) and guards in (["(lhs_elm&&rhs_elm)"], ["(rhs_elm&&lhs_elm)"]) and full_loop(f, "lhs") not in (None, False) \
